@@ -60,4 +60,25 @@ PROPS = {
                         "against crypto/sha256 by every compared hash",
                         "level masks above 7 cannot be produced by the parser (d1 >> 5) and are outside the theorem"],
     },
+    'C01': {
+        'level': 'proof',
+        'coq': ['Properties/C01.v'],
+        'coq_gen': ['Properties/C07_gen.v'],
+        'rule': ("random cell DAGs (1..120 cells quick, sizes crossing 255/256, chains of depth 1023/1024, wide fans, heavy "
+                 "sharing, all bit lengths, valid exotic cells) serialised with the 8 option combinations: the bytes of "
+                 "Cell.ToBocCustom are compared exactly with the extracted model of importCell/reorderCells/revisit/"
+                 "serializeBoc, and both sides attach a certificate (own output parses to one root with the same hash; "
+                 "model: every cell stored once and the cell count equals the number of distinct reachable hashes; "
+                 "implementation: structurally identical root). Oracles on the implementation: header cell count = "
+                 "number of distinct sub-cell hashes, same bytes for the same structure rebuilt without pointer sharing, "
+                 "BOCs written by an independent reference serialiser (3 magics, index, CRC, cache bits, over-wide "
+                 "fields, stored hashes, several roots) parse to the intended hash and structure. A class is (family, "
+                 "options, size bucket, outcome)."),
+        'explanation': ("coq/Properties/C01.v: the parser inverts the BOC layout for every header variant and every "
+                        "topological order (parse_layout); per output the model-side certificate is evaluated by the "
+                        "extracted parser (translation-validation style for the serialiser, see DESIGN.md)."),
+        'assumptions': ["fewer than 2^24 cells (WriteInt(refByteSize,3) writes 0 for 4)",
+                        "de-duplication is by SHA-256 hash: 'stored once' assumes no collision among the sub-cells",
+                        "the universal claim about the serialiser's reordering is validated per output by a certificate, not proved for all inputs"],
+    },
 }
